@@ -21,9 +21,20 @@ import (
 )
 
 func c11KeyPairs(c *mc.Ctx) {
-	maxLen := c.Pick(34, 41)
-	la := c.Free(maxLen, "content length of key a")
-	lb := c.Free(maxLen, "content length of key b")
+	var la, lb int
+	if c.Free(2, "length class: every short length / long keys") == 0 {
+		maxLen := c.Pick(34, 41)
+		la = c.Free(maxLen, "content length of key a")
+		lb = c.Free(maxLen, "content length of key b")
+	} else {
+		// long keys (deep sibling URLs): around 64, 128 and the 255/256 head boundary, every first-difference position
+		long := []int{61, 62, 63, 64, 65, 66, 126, 127, 128, 129, 254, 255, 256, 257}
+		if c.Quick() {
+			long = []int{62, 63, 64, 65, 127, 128, 255, 256}
+		}
+		la = long[c.Free(len(long), "content length of key a")]
+		lb = long[c.Free(len(long), "content length of key b")]
+	}
 	m := la
 	if lb < m {
 		m = lb
@@ -124,5 +135,5 @@ func c11KeyPairs(c *mc.Ctx) {
 func init() {
 	p := props["C11"]
 	p.Harnesses = append(p.Harnesses, &mc.Harness{Name: "C11/key-pairs", Run: c11KeyPairs})
-	p.Rule += " C11/key-pairs: two text / byte-string keys of every content length 0..33 (thorough 0..40) x every position of their first difference (or prefix / equal) x either side smaller x 4 arrangements (both orders, with and without a third key between them)."
+	p.Rule += " C11/key-pairs: two text / byte-string keys of every content length 0..33 (thorough 0..40), and of lengths around 64, 128 and 256, x every position of their first difference (or prefix / equal) x either side smaller x 4 arrangements (both orders, with and without a third key between them)."
 }
